@@ -268,7 +268,7 @@ func joinArgsOK(call *ssa.Call, dirOK, nameOK func(ssa.Value) bool) bool {
 
 func c18SoleConstructor(c *Ctx) {
 	counts := map[string]int{}
-	for _, fn := range c.Funcs {
+	for _, fn := range c.subjects() {
 		instrs(fn, func(_ *ssa.BasicBlock, _ int, ins ssa.Instruction) {
 			st, ok := ins.(*ssa.Store)
 			if !ok {
@@ -303,7 +303,7 @@ var fsMutators = map[string]int{ // callee -> index of the path argument
 
 func c18JoinRoot(c *Ctx) {
 	n := 0
-	for _, fn := range c.Funcs {
+	for _, fn := range c.subjects() {
 		if fn.Signature.Recv() == nil || typeName(fn.Signature.Recv().Type()) != "desync.LocalFS" {
 			continue
 		}
@@ -338,7 +338,11 @@ func c18JoinRoot(c *Ctx) {
 					return onlyOrigins(v, func(o string) bool { return o == "field:LocalFS.Root" })
 				},
 					func(v ssa.Value) bool {
-						return onlyOrigins(v, func(o string) bool { return o == "field:"+nodeType+".Name" })
+						// the method's own node name; through a shared path helper the (context-insensitive)
+						// binding of its parameter shows the names of all Node* types
+						return onlyOrigins(v, func(o string) bool {
+							return o == "field:"+nodeType+".Name" || (strings.HasPrefix(o, "field:Node") && strings.HasSuffix(o, ".Name") && len(newHelpers) > 0)
+						})
 					}) {
 					okP = false
 					why = "filepath.Join of something else than (fs.Root, n.Name)"
